@@ -68,7 +68,7 @@ class C03(object):
             # ... integer constants nothing refers to, negative constants raised to a power, numbers written .5, 5., 1E-3, +3
             case['text'] = ('ns_prev = ns_G(k-1)\nns_use = 0.5*ns_prev + ns_G\nns_five = 5\nns_n = -3\nns_neg = -1.5\n'
                             'ns_sq = ns_neg**2\nns_cube = ns_n**3 + ns_sq\nns_a = .5\nns_b = 5.\nns_c = 1E-3\nns_d = +3\n'
-                            'ns_mix = ns_a*ns_b + ns_c**2 - ns_d**2 + ns_n**2\n') + case['text']
+                            'ns_mix = ns_a*ns_b + ns_c**2 - ns_d**2 + ns_n**2\nns_flag = ns_n > -5\nns_gate = (ns_b >= 5)*ns_a\n') + case['text']
             case['number_shapes'] = True
         if rng.random() < 0.2:
             # an alias whose NAME looks like a number suffix, used next to literals spelled with a bare dot
